@@ -42,8 +42,7 @@ Proof. intros H. rewrite <- (tree_path_concat d n1), <- (tree_path_concat d n2),
 
 Lemma has_hash_tmp n k : has_hash (tmp_name n k) = true.
 Proof.
-  unfold has_hash, tmp_name. rewrite existsb_app. apply orb_true_iff. right. simpl.
-  rewrite N.eqb_refl. reflexivity.
+  unfold has_hash, tmp_name. rewrite existsb_app. apply orb_true_iff. right. reflexivity.
 Qed.
 
 (* ---- links -------------------------------------------------------------------------------- *)
@@ -197,8 +196,7 @@ Proof. unfold records. apply flat_map_app. Qed.
 Lemma no_prefix_records rs tail : rs <> [] -> no_prefix (records rs ++ tail) = false.
 Proof.
   destruct rs as [|[id d] rs]; [congruence|]. intros _.
-  change (records ((id, d) :: rs)) with (record id d ++ records rs). unfold record. simpl.
-  rewrite N.eqb_refl. reflexivity.
+  change (records ((id, d) :: rs)) with (record id d ++ records rs). unfold record. reflexivity.
 Qed.
 
 (* a file of records is never a plain file of some address *)
@@ -278,7 +276,7 @@ Proof. intros E (n & E1 & [H|(a & E' & H)]); exists n; split; auto. right. exist
 
 Theorem exec_ok s x : linked_ok s -> safe s x -> linked_ok (exec s x).
 Proof.
-  intros [ND OK] S. destruct x as [|i d|i p|p|p q|p| |]; simpl in *.
+  intros [ND OK] S. unfold linked_ok. destruct x as [|i d|i p|p|p q|p| |]; simpl in *.
   - (* open O_TMPFILE *)
     split; [exact ND|]. intros p i I. destruct (OK p i I) as [L N]. split; [rewrite app_length; lia|].
     eapply name_ok_inodes; [|exact N]. simpl. apply app_nth1. exact L.
